@@ -261,6 +261,35 @@ PARAM_QUERIES = [
     'with a := <str>$0, b := global g_default select (a, b, <optional str>$1)',
     'select (for i in {1, 2} union (select T filter .n = <str>$q limit <int64>$lim))',
 ]
+DML_SCHEMA_EXTRA = [
+    'create type P { create property title -> str; create link author -> U; '
+    'create multi link editors -> U; create link t -> T; }',
+]
+DML_SHAPES = [
+    'select (insert P { title := "a", author := (insert U { name := "b" }) }) { title, author: { name } }',
+    'select (insert P { title := "a", editors := (select U filter .name = "x") }) { editors: { name } }',
+    'select (insert P { title := "a", editors := {(insert U { name := "e1" }), (insert U { name := "e2" })} }) '
+    '{ editors: { name } }',
+    'select (update P filter .title = "k" set { author := (insert U { name := "new" }) }) '
+    '{ title, author: { name } }',
+    'select (update P filter .title = "k" set { editors += (insert U { name := "new" }) }) '
+    '{ editors: { name } }',
+    'with u := (insert U { name := "i" }) select P { title, author: { name }, editors: { name } }',
+    'with u := (insert U { name := "p" }), b := (update P filter .title = "q" set { author := u }) '
+    'select b { title, author: { name } }',
+    'select (for i in {"a", "b"} union (insert P { title := i, author := (insert U { name := i ++ "x" }) })) '
+    '{ title, author: { name } }',
+    'with x := (insert U { name := "u" }) select (x { name }, (select P { author: { name } }))',
+    'select (insert P { title := "a", author := (insert U { name := "b" }) }).author.name',
+    'select count((update P set { author := (insert U { name := "c" }) }).author)',
+    'select (update T filter .n = "k" set { n := "z" }) { n, ml: { n }, l: { n } }',
+    'with x := (insert T { n := "i" }) select T { n, l: { n }, ml: { n } }',
+    'with a := (insert T { n := "p" }), b := (update T filter .n = "q" set { l := a }) '
+    'select b { n, l: { n, ml: { n } } }',
+    'select (delete T filter .n = "d") { n, l: { n } }',
+    'select (delete P filter .title = "d") { author: { name } }',
+    'select (insert P { title := "t", t := (insert T { n := "tt" }) }) { t: { n, l: { n } } }',
+]
 PARAM_SCHEMA_EXTRA = [
     'create required global g_plain -> str { set default := "p" }' if False else
     'create global g_plain -> str',
@@ -308,6 +337,9 @@ def universe(quick, seed):
     for i, cfg in enumerate(cfgs):
         for text in c07.QUERIES.values():
             items.append((f'pol{i}', text))
+    # 3b. shapes over the result of DML (links into types the statement wrote)
+    for text in DML_SHAPES:
+        items.append(('dml', text))
     # 4. parameters and globals
     for text in PARAM_QUERIES:
         items.append(('params', text))
@@ -321,12 +353,13 @@ def schema_for(key, cfgs):
     if key in _SCHEMAS:
         return _SCHEMAS[key]
     st = S()
-    if key in ('caps', 'params'):
+    if key in ('caps', 'params', 'dml'):
         import c08
         from edb.server.compiler import compiler as C
         from edb import edgeql
         ctx = st['boot'].new_ctx()
-        stmts = list(c08.SCHEMA) + (PARAM_SCHEMA_EXTRA if key == 'params' else [])
+        stmts = list(c08.SCHEMA) + (PARAM_SCHEMA_EXTRA if key == 'params' else []) \
+            + (DML_SCHEMA_EXTRA if key == 'dml' else [])
         for q in stmts:
             C.compile(ctx=ctx, source=edgeql.Source.from_string(q))
         user = ctx.state.current_tx().get_user_schema()
